@@ -263,6 +263,64 @@ pub fn run_history(tr: &mut Trace, c: &Conc, r: &mut Rng, t: i32, tx: i32, hist:
     }
 }
 
+/// what an application's own row type wants: the index must be there
+struct IdxRow(i64);
+impl dbase::ReadableRecord for IdxRow {
+    fn read_using<S, M>(it: &mut dbase::FieldIterator<S, M>) -> Result<Self, dbase::FieldIOError>
+    where
+        S: std::io::Read + std::io::Seek,
+        M: std::io::Read + std::io::Seek,
+    {
+        // fails for a row whose IDX was left empty
+        let idx = it.read_next_field_as::<f64>()?.value;
+        let _name = it.read_next_field_as::<String>();
+        Ok(IdxRow(idx as i64))
+    }
+}
+
+/// n pairs of which row `hole` cannot be converted to the caller's row type: the iteration reports that pair as
+/// an error and goes on; the pairs after it are still shape i with row i
+fn rowerr_event(tr: &mut Trace, c: &Conc, r: &mut Rng, t: i32) {
+    let n = 3 + r.below(4);
+    let hole = 1 + r.below(n - 1);      // 1-based, never the first (so that the table has a typed first row)
+    let shapes = distinct_shapes(r, t, n, false);
+    let built: Vec<Shape> = shapes.iter().map(|a| build(c, a)).collect();
+    let (shp, shx, dbf) = (LogDest::new(), LogDest::new(), LogDest::new());
+    let res = guarded(|| {
+        {
+            let mut w = Writer::new(ShapeWriter::with_shx(shp.clone(), shx.clone()), table_builder().build_with_dest(dbf.clone()));
+            for (i, s) in built.iter().enumerate() {
+                let mut row = idx_record(i + 1);
+                if i + 1 == hole {
+                    row.insert("IDX".to_string(), dbase::FieldValue::Numeric(None));
+                }
+                with_inner!(s, v => w.write_shape_and_record(v, &row).unwrap(), ());
+            }
+        }
+        let sr = ShapeReader::with_shx(Cursor::new(shp.bytes()), Cursor::new(shx.bytes())).unwrap();
+        let mut rd = Reader::new(sr, dbase::Reader::new(Cursor::new(dbf.bytes())).unwrap());
+        let mut items: Vec<Value> = vec![];
+        for x in rd.iter_shapes_and_records_as::<Shape, IdxRow>() {
+            match x {
+                Ok((s, row)) => {
+                    let a = abstract_shape(c, &s);
+                    let si = shapes.iter().position(|o| o.t == a.t && key(o) == key(&a)).map(|p| p as i64 + 1).unwrap_or(-9);
+                    items.push(json!([si, row.0]));
+                }
+                Err(_) => items.push(json!([-1, -1])),
+            }
+            if items.len() > n + 2 {
+                break;
+            }
+        }
+        items
+    });
+    match res {
+        Ok(items) => tr.run(json!({"ev": "rowerr", "t": t, "n": n, "hole": hole, "items": items, "panic": ""})),
+        Err(p) => tr.run(json!({"ev": "rowerr", "t": t, "n": n, "hole": hole, "items": [], "panic": p})),
+    }
+}
+
 pub fn run(a: &Args) {
     let prop = a.get("prop", "C08");
     let out = PathBuf::from(a.get("out", "work/complete"));
@@ -304,6 +362,14 @@ pub fn run(a: &Args) {
             k += 1;
             let by_path = k % 5 == 0;
             run_history(&mut traces[i], &concs[i], &mut r, t, tx, &h, by_path, &tmp.0, k, &prop);
+        }
+    }
+    // rows the caller's own row type cannot take
+    if prop == "C08" || prop == "all" {
+        for ti in 0..6usize {
+            let t = ALL_TYPES[(ti * 2 + seed as usize) % 13];
+            k += 1;
+            rowerr_event(&mut traces[k % chunks], &concs[k % chunks], &mut r, t);
         }
     }
     // more pairs than any pre-allocation cap (1 024): every pair must still come back, by path and in memory
